@@ -59,6 +59,8 @@ type stsPlan struct {
 	// MatchExpr: the StatefulSet's selector also has a match expression (sts In [<label>]) that selects the same pods
 	// as its match labels do
 	MatchExpr bool `json:"matchExpr,omitempty"`
+	// ExprOnly: (with MatchExpr) the selector consists of that match expression alone, it has no match labels
+	ExprOnly bool `json:"exprOnly,omitempty"`
 }
 
 type coordCase struct {
@@ -205,6 +207,9 @@ func execCoord(c *coordCase, only int) *coordObs {
 		set.Namespace = s.ns()
 		if s.MatchExpr {
 			set.Spec.Selector.MatchExpressions = []metav1.LabelSelectorRequirement{{Key: "sts", Operator: metav1.LabelSelectorOpIn, Values: []string{s.podLabel()}}}
+			if s.ExprOnly {
+				set.Spec.Selector.MatchLabels = nil
+			}
 		}
 		if s.OnDelete {
 			set.Spec.UpdateStrategy.Type = appsv1.OnDeleteStatefulSetStrategyType
@@ -386,6 +391,9 @@ func runCoord(c *coordCase) (vs []vkit.Violation, classes []string) {
 	for si := range c.Sets {
 		if c.Sets[si].MatchExpr {
 			classes = append(classes, "coord/statefulset-whose-selector-has-a-match-expression")
+			if c.Sets[si].ExprOnly {
+				classes = append(classes, "coord/statefulset-whose-selector-has-nothing-but-a-match-expression")
+			}
 			break
 		}
 	}
@@ -497,6 +505,7 @@ func genCoord(t *rapid.T) *coordCase {
 			s.Conflicting = true
 		}
 		s.MatchExpr = rapid.IntRange(0, 4).Draw(t, fmt.Sprintf("matchExpr%d", i)) == 0
+		s.ExprOnly = s.MatchExpr && rapid.Bool().Draw(t, fmt.Sprintf("exprOnly%d", i))
 		if c.AllNS {
 			s.NS = rapid.SampledFrom([]string{"", "tenant-b", "tenant-c"}).Draw(t, fmt.Sprintf("ns%d", i))
 			if i > 0 && rapid.Bool().Draw(t, fmt.Sprintf("sameName%d", i)) {
